@@ -106,15 +106,15 @@ TNextTrace == /\ tid <= Len(Tr) /\ l > Len(Tr[tid]) /\ pc = "graph"
 Diagnose ==
     IF Rec.ev = "raise" THEN "exception although the input program is in the documented domain: " \o Rec.exc
     ELSE IF Rec.ev = "graph" THEN
-        (IF ~guard THEN "spec: a graph was returned although the model's guard fails"
+        (IF Strict /\ (~guard) THEN "spec: a graph was returned although the model's guard fails"
          ELSE IF ~JsonIdsUnique(Rec.g) THEN "duplicate ids"
          ELSE IF ~(JsonListsOK(Rec.g) /\ ConsistentG(GraphOfJson(Rec.g))) THEN "graph inconsistent"
          ELSE IF GraphLength(GraphOfJson(Rec.g)) # L \/ Rec.length # L THEN "wrong length"
          ELSE IF Den(GraphOfJson(Rec.g)) # target THEN "graph does not denote the meaning of the input program"
-         ELSE IF pc = "autop" /\ ~(\A i \in 0..L : Width(GraphOfJson(Rec.g), i) = widths[i]) THEN "spec: layer widths differ from the live automaton states (dead states / missing states)"
-         ELSE IF pc = "trees" /\ ~Simplified(GraphOfJson(Rec.g)) THEN "spec: graph from trees is not simplified"
+         ELSE IF Strict /\ (pc = "autop" /\ ~(\A i \in 0..L : Width(GraphOfJson(Rec.g), i) = widths[i])) THEN "spec: layer widths differ from the live automaton states (dead states / missing states)"
+         ELSE IF Strict /\ (pc = "trees" /\ ~Simplified(GraphOfJson(Rec.g))) THEN "spec: graph from trees is not simplified"
          ELSE IF ~Rec.cons THEN "is_consistent() false on a consistent graph"
-         ELSE "spec: dangling nodes / duplicate operator ids on an edge")
+         ELSE IF Strict THEN "spec: dangling nodes / duplicate operator ids on an edge" ELSE "a property clause of this event failed (no specific diagnostic)")
     ELSE IF Rec.ev = "dense" THEN "as_matrix() differs from the matrix of the symbolic meaning"
     ELSE IF Rec.ev \in {"trees", "autop"} THEN "the specified construction itself does not denote the meaning (spec problem)"
     ELSE "unexpected event"
